@@ -297,6 +297,24 @@ Fixpoint keys_ok (v : val) : bool :=
   | _ => true
   end.
 
+(** every key of every mapping inside [v] formats (on its own) to a modelled kind of key *)
+Fixpoint keys_fmt_ok (ff : nat) (root : dict) (v : val) : bool :=
+  let fix all (l : list val) : bool :=
+    match l with [] => true | x :: r => keys_fmt_ok ff root x && all r end in
+  let fix alld (l : list (val * val)) : bool :=
+    match l with
+    | [] => true
+    | (k, x) :: r =>
+        match format_value ff root k with Ok kf => key_kind_ok kf | _ => true end
+        && keys_fmt_ok ff root x && alld r
+    end in
+  match v with
+  | VList l | VTuple l | VSet l => all l
+  | VDict l => alld l
+  | VJsonify x => keys_fmt_ok ff root x
+  | _ => true
+  end.
+
 (** * The merge *)
 Definition is_strtag (v : val) : bool :=
   match v with VStr _ | VPy _ _ | VSic _ | VJsonify _ => true | _ => false end.
@@ -309,11 +327,12 @@ Definition lift {A} (s : st) (r : res A) (k : A -> out) : out :=
   end.
 
 (** hashing the formatted key.  bool / float keys collide with ints in Python
-    ([True == 1 == 1.0]); that is not modelled. *)
+    ([True == 1 == 1.0]); a [VSet] may be a frozenset (hashable) or a set (not): neither is
+    modelled. *)
 Definition key_check (s : st) (k : val) (cont : out) : out :=
   match k with
   | VStr _ | VInt _ | VNone | VBytes _ => cont
-  | VList _ | VDict _ | VSet _ =>
+  | VList _ | VDict _ =>
       (SErr "TypeError" ("unhashable type: '" ++ type_name k ++ "'"), s)
   | _ => (SUnsup, s)
   end.
@@ -330,13 +349,17 @@ Section Merge.
 
   Definition fmt (s : st) (v : val) : res val := format_value ff (s_root s) v.
 
-  (** formatting an incoming VALUE: building a dict whose formatted key is unhashable (or a
-      bool / float key that python identifies with an int) is not modelled by Format.v *)
+  (** formatting an incoming VALUE.  Format.v does not model hashing: python raises
+      TypeError the moment a dict under construction receives an unhashable formatted key
+      (before the remaining items are formatted), and identifies bool / float keys with
+      ints.  Values whose nested keys format to such kinds are outside the model. *)
   Definition fmtv (s : st) (v : val) : res val :=
-    match fmt s v with
-    | Ok x => if keys_ok x then Ok x else Unsup
-    | r => r
-    end.
+    if keys_fmt_ok ff (s_root s) v then
+      match fmt s v with
+      | Ok x => if keys_ok x then Ok x else Unsup
+      | r => r
+      end
+    else Unsup.
 
   Section Open.
     (** the recursive call [merge_recurse(current[k], v)] / [defaults_recurse(...)] *)
